@@ -105,8 +105,46 @@ def gen_case(rng, idx):
             "meta": {"oddmode": oddmode, "disciplined": disciplined}}
 
 
+def gen_aimed(rng, idx):
+    """the windows the proofs split on: a scan of thread 1 placed between two chosen steps of thread 0's
+    protect / copy / clear sequence on an object that thread 1 unlinks, retires and scans for"""
+    H = 1 + rng.below(3)
+    P = 2 + rng.below(2)
+    R = H * P + 1 + rng.below(3)
+    scan = rng.below(2)
+    odd = rng.below(2) if rng.chance(1, 3) else 0
+    o1 = (2 + 2 * rng.below(50)) | odd
+    o2 = (2 + 2 * rng.below(50)) | odd
+    while o2 == o1:
+        o2 = (2 + 2 * rng.below(50)) | odd
+    o3 = 110 + 2 * rng.below(5)
+    j = rng.below(H)
+    t0 = [[1], [6, 0, o1], [3, j, 0]]
+    if H > 1 and rng.chance(1, 2):
+        j2 = rng.below(H)
+        if j2 != j:
+            t0 += [[10, j2, j]]
+            if j2 > j and rng.chance(1, 2):     # only an upward copy keeps the object protected once the source is cleared
+                t0 += [[5, j]]
+                j = j2
+    t0 += [[9, j], [3, (j + 1) % H, 0], [9, j], [5, j]]
+    t1 = [[1]]
+    if rng.chance(1, 2):
+        t1 += [[7, o3]]
+    t1 += [[6, 0, o2 if rng.chance(1, 2) else 0], [8]]
+    if rng.chance(1, 2):
+        t1 += [[8]]
+    if rng.chance(1, 3):
+        t1 += [[2]]
+    x = 5 + rng.below(12)
+    y = 8 + rng.below(40)
+    sched = [0] * x + [1] * y + [0] * (2 + rng.below(8)) + [1] * 60 + [0] * 20
+    return {"id": "a%d" % idx, "cfg": [H, P, R, scan, 1, 400], "threads": [t0, t1], "sched": sched,
+            "meta": {"aimed": True, "oddmode": odd, "disciplined": True}}
+
+
 def gen_cases(rng, n, start=0):
-    return [gen_case(rng, start + i) for i in range(n)]
+    return [gen_aimed(rng, start + i) if i % 5 == 4 else gen_case(rng, start + i) for i in range(n)]
 
 
 # ------------------------------------------------------------------------------------------------ running
